@@ -363,6 +363,9 @@ package scanner
 //@   ensures[C13,@kw-start] imp(startsDirective(self) && result == nil && s.gOpen == 1, s.gOpenAt == old(s.curIndex)
 //@       && ((isLetterState(s.step) && lit(s.step) == char(c)) || (s.step == stateResponseKeywordStarted && '1' <= c && c <= '5')))
 //@   ensures[C13,@kw-start-complete] imp(startsDirective(self) && (isKwPrefix(char(c)) || ('1' <= c && c <= '5')), result == nil && s.gOpen == 1)
+// where a directive may start, a byte that opens no keyword is accepted only if it is a blank, a line break, the end of the
+// file, '#', '(' or ')' ("any other byte sequence yields an error at the first deviating byte")
+//@   ensures[C13,C12,@kw-start-only] imp(startsDirective(self) && result == nil && s.gOpen != 1, in(c, ' ', '\t', '\n', '\r', 0, '#', '(', ')'))
 //@   ensures[C13,@separator] imp(self == stateParameterOrAnnotation,
 //@       iff(result == nil, isSeparator(c)) && imp(result != nil, result.Index == old(s.curIndex)))
 //@   ensures[C12,C11,@paren-is-reported] imp((self == stateBodyBody || self == stateEnumBody || self == stateHeaderBody || self == stateParamsBody || self == statePathBody
